@@ -1,5 +1,10 @@
 use std::fmt::{Debug, Formatter};
 use std::io;
+#[cfg(indicatif_verif)]
+use crate::verif_hooks::RwLock;
+#[cfg(indicatif_verif)]
+use std::sync::Arc;
+#[cfg(not(indicatif_verif))]
 use std::sync::{Arc, RwLock};
 use std::thread::panicking;
 #[cfg(not(target_arch = "wasm32"))]
